@@ -179,7 +179,7 @@ impl Family for Schedules {
         600
     }
     fn rule(&self) -> &'static str {
-        "12 programs with a spawner and 1-2 `go` closures (racy read, spin-wait, lost update, print race, by-value capture, nested go, two workers, spawner continues, go in a loop, handshake, no wait, ref inside a struct); stateless DFS over every schedule of the emitted Go (run by the Go interpreter under a controlled scheduler) and of the reference semantics, yielding at every Ref operation, print and loop back-edge (quick: preemption bound 2; thorough: unbounded, capped at 200000 schedules); oracle: equal sets of terminal observations (stdout, end); states = scheduling points visited, transitions = schedules executed; non-trivial = programs with > 1 distinct outcome"
+        "12 programs with a spawner and 1-2 `go` closures (racy read, spin-wait, lost update, print race, by-value capture, nested go, two workers, spawner continues, go in a loop, handshake, no wait, ref inside a struct); stateless DFS over every schedule of the emitted Go (run by the Go interpreter under a controlled scheduler) and of the reference semantics, yielding at every Ref operation, print and loop back-edge (quick: preemption bound 2; thorough: unbounded, capped at 50000 schedules); oracle: equal sets of terminal observations (stdout, end); states = scheduling points visited, transitions = schedules executed; non-trivial = programs with > 1 distinct outcome"
     }
     fn cases(&self, _tier: Tier) -> Box<dyn Iterator<Item = Value> + '_> {
         Box::new(PROGRAMS.iter().map(|p| json!({"program": p})))
@@ -189,7 +189,7 @@ impl Family for Schedules {
         let name = case["program"].as_str().unwrap();
         let prog = build(name);
         let text = print::print_main(&prog);
-        let (bound, cap) = if ctx.tier == Tier::Quick { (Some(2), 20_000) } else { (None, 200_000) };
+        let (bound, cap) = if ctx.tier == Tier::Quick { (Some(2), 20_000) } else { (None, 50_000) };
         let fuel = 200_000;
         let path = ctx.scratch.single_path();
         let comp = match compile_at(&path, &text) {
